@@ -134,6 +134,8 @@ class StubsBase:
         self.ext["inspect"] = NS("inspect", {"signature": Stub(self.i_signature, "inspect.signature")})
         nullctx = NS("nullcontext-object")
         nullctx.is_context = True
+        self.ext["copy"] = NS("copy", {"copy": Stub(self.f_copy, "copy.copy")})
+        self.ext["copy.copy"] = self.ext["copy"].attrs["copy"]
         self.ext["contextlib"] = NS("contextlib", {"nullcontext": Stub(lambda ctx, *a: self._nullcontext(), "nullcontext")})
         self.ext["contextlib.nullcontext"] = self.ext["contextlib"].attrs["nullcontext"]
         self.ext["pprint"] = NS("pprint", {"pformat": Stub(lambda ctx, *a, **k: "<pformat>", "pformat")})
@@ -192,6 +194,22 @@ class StubsBase:
 
     def type_hook(self, v, ctx):
         return None
+
+    def f_copy(self, ctx, v):
+        """copy.copy: a new object of the same class sharing the attribute values (shallow)."""
+        from .values import Obj as _Obj
+        if isinstance(v, _Obj):
+            new = _Obj(v.cls)
+            new.fields = dict(v.fields)
+            new.born_in_call = True
+            if getattr(v, "ghost", None) is not None:
+                new.ghost = v.ghost
+            return new
+        if isinstance(v, (list, dict, set)):
+            return type(v)(v)
+        if isinstance(v, (tuple, str, int, float, bool, Fraction)) or v is None:
+            return v
+        raise Unsupported(f"copy.copy of {type(v).__name__}")
 
     _NODEFAULT = object()
 
